@@ -103,6 +103,27 @@ func c17Record(tier string, seed int64, emit func(interface{})) {
 			}
 		}
 	}
+	// bans that occur once only, across the seam between the 4^n-letter cycle and the n-1 letters repeated after it,
+	// with barcode lengths whose last window reaches over the seam
+	for n := 2; n <= 5; n++ {
+		L := len(dbs[n])
+		for _, m := range []int{n + 1, n + 2, n + 3} {
+			if m > 8 {
+				continue
+			}
+			for off := 1; off < m && off <= n-1; off++ { // `off` letters of the ban lie in the repeated suffix
+				from := L - (n - 1) + off - m
+				if from < 0 {
+					continue
+				}
+				ban := dbs[n][from : from+m]
+				for _, length := range []int{n + 2, 2*n + 3, 2*n + 5} {
+					call(n, length, []string{ban}, nil)
+					call(n, length, []string{rcDNA(ban)}, nil)
+				}
+			}
+		}
+	}
 	fnames := []string{"noGG", "notA", "gcMax", "noHomo3"}
 	for i := 0; i < nRand; i++ {
 		n := 2 + rng.Intn(maxOrder-1)
